@@ -172,6 +172,8 @@ type ChartSpec struct {
 	Defaults    map[string]interface{} `json:"defaults,omitempty"`
 	// SubDefaults, when not nil, adds a dependency chart "sub" (same version) whose values.yaml holds these defaults (C13).
 	SubDefaults map[string]interface{} `json:"subDefaults,omitempty"`
+	// SubUndeclared: the subchart only lies in charts/ and is not listed under dependencies in Chart.yaml (allowed).
+	SubUndeclared bool `json:"subUndeclared,omitempty"`
 	Schema      string                 `json:"schema,omitempty"`
 }
 
@@ -227,7 +229,9 @@ func (c ChartSpec) Build() *chart.Chart {
 			Values:    deepCopyJSON(c.SubDefaults),
 			Templates: []*chart.File{{Name: "templates/probe.yaml", Data: []byte("apiVersion: v1\nkind: ConfigMap\nmetadata:\n  name: probe-sub\ndata:\n  values: {{ toJson .Values | quote }}\n")}},
 		}
-		ch.Metadata.Dependencies = append(ch.Metadata.Dependencies, &chart.Dependency{Name: "sub", Version: sub.Metadata.Version})
+		if !c.SubUndeclared {
+			ch.Metadata.Dependencies = append(ch.Metadata.Dependencies, &chart.Dependency{Name: "sub", Version: sub.Metadata.Version})
+		}
 		ch.AddDependency(sub)
 	}
 	return ch
